@@ -125,7 +125,7 @@ pub fn run_c10<K: KeyT, V: ValT>(spec: &RunSpec, thorough: bool) -> RunOutcome {
         }
         kinds.push(Op::SShrinkToFit { s: 0 });
     }
-    if K::CLASS != ElemClass::Zst {
+    if !K::CLASS.is_zst() {
         for c in [0usize, 1, 2, 3, 4, 7, 8, 14, 15, 28, 29, 100, 1000] {
             kinds.push(Op::WithCapacity { m, n: c });
         }
@@ -203,7 +203,7 @@ pub fn run_c10<K: KeyT, V: ValT>(spec: &RunSpec, thorough: bool) -> RunOutcome {
                     let mut a = a;
                     a.detail = format!("[application {} = {:?} in a state with len {} split {}] {}", this, op, len_b, before.split, a.detail);
                     out.violation = Some(a);
-                    out.fault = Some(Fault { at: this, nth: 0 });
+                    out.fault = Some(Fault { at: this, nth: 0, site: None });
                 }
                 stop = true;
             } else {
